@@ -132,7 +132,7 @@ func (e *Explorer) explore(prefix []int, level int) {
 			}
 			for alt := 1; alt < p.NEnabled; alt++ {
 				c := cost
-				if p.CurEnabled && !p.Free[alt] && !p.Free[0] {
+				if p.CurEnabled && !p.Free(alt) && !p.Free(0) {
 					c++
 				}
 				if c > e.Bound {
@@ -157,7 +157,7 @@ func (e *Explorer) explore(prefix []int, level int) {
 				}
 			}
 		}
-		if p.Chosen != 0 && p.CurEnabled && !p.Free[p.Chosen] && !p.Free[0] {
+		if p.Chosen != 0 && p.CurEnabled && !p.Free(p.Chosen) && !p.Free(0) {
 			cost++
 		}
 	}
